@@ -32,9 +32,9 @@ const (
 )
 
 func run(c *vf.Ctx) {
-	c.Rule("history = one client posts a seeded script of /db/execute?raft_index requests (1-5 statements, 40% with ?transaction; single- and multi-row INSERT/UPDATE/DELETE on a rowid-alias table with UNIQUE and CHECK constraints, a plain rowid table, a table outside the configured filter, auxiliary tables created/dropped by DDL; statements that fail after touching rows (UNIQUE / CHECK midway) or at prepare) at about 30 requests/s to the leader (75%) or a random node of a live in-process 3-node cluster in which every node runs a real cdc.Service (batch size 1-5, batch delay 10-60 ms, HWM interval 100-600 ms, retry forever) posting to a recording endpoint that answers per a seeded plan (76% 200, 12% 500, 6% connection closed, 6% held beyond the transmit timeout; outages of 15-85 requests during which everything fails), while a seeded schedule steps the leader down (also twice during an outage), restarts nodes (leader or follower; close without snapshot, new service instance on the same fifo.db), takes user snapshots with 0-10 trailing logs. Every applied request is replayed on a shadow SQLite (stock driver, raw preupdate/commit hooks) to obtain the row changes, and the commit groups, of its log entry; unknown outcomes are resolved by comparing the strong-read state with shadow states. In addition 1 (quick) / 4 (thorough) directed histories (batch size 100, batch delay 8 s, no automatic snapshots): endpoint down, a few seeded requests on the leader, a user snapshot on a follower that has applied them while they are still inside its batching window, immediate restart of that follower, leadership moved to it, endpoint back, more requests; and 2 (quick) / 6 (thorough) directed histories of a second motif (batch size 1-5, batch delay 10-60 ms, no automatic snapshots): a running follower (for a third of the histories a restarted process that has replayed its log) is cut off, 6-13 seeded requests are committed by the majority while its leader takes two user snapshots with 1-2 trailing logs (its log is trimmed), the requests are delivered (for a quarter of the histories the endpoint is down instead, from the cut-off until the follower leads), the follower is reconnected and is brought up to date by a snapshot sent by the leader (observed: its raft last_snapshot_index moves although it took no snapshot), 2-5 more requests are applied by it as follower (endpoint down for two thirds of the histories), leadership is moved to it, endpoint back, 3-6 requests under its leadership. non-trivial (random histories) = at least two leaders seen, at least one restart and one snapshot (user or automatic) executed, endpoint retries observed, and at least 5 multi-statement non-transaction entries with more than one non-empty commit; non-trivial (directed) = the scripted situation was reached (first motif: a non-leader took the snapshot and its restarted instance later delivered as leader; second motif: the snapshot install on the running follower was observed, entries were applied after it and the follower led the last request); distinct by case number")
+	c.Rule("history = one client posts a seeded script of /db/execute?raft_index requests (1-5 statements, 40% with ?transaction; single- and multi-row INSERT/UPDATE/DELETE on a rowid-alias table with UNIQUE and CHECK constraints, a plain rowid table, a table outside the configured filter, auxiliary tables created/dropped by DDL; statements that fail after touching rows (UNIQUE / CHECK midway) or at prepare) at about 30 requests/s to the leader (75%) or a random node of a live in-process 3-node cluster in which every node runs a real cdc.Service (batch size 1-5, batch delay 10-60 ms, HWM interval 100-600 ms, retry forever) posting to a recording endpoint that answers per a seeded plan (70% 200, 6% refused with a status that is neither success nor a server error: 429 with Retry-After / 404 / 408 / 401 / 403 / 413 / 400 / 409 / 300 / 304, 12% 500, 6% connection closed, 6% held beyond the transmit timeout; outages of 15-85 requests during which everything fails: 500, connection closed, or such a refusal), while a seeded schedule steps the leader down (also twice during an outage), restarts nodes (leader or follower; close without snapshot, new service instance on the same fifo.db), takes user snapshots with 0-10 trailing logs. Every applied request is replayed on a shadow SQLite (stock driver, raw preupdate/commit hooks) to obtain the row changes, and the commit groups, of its log entry; unknown outcomes are resolved by comparing the strong-read state with shadow states. In addition 1 (quick) / 4 (thorough) directed histories (batch size 100, batch delay 8 s, no automatic snapshots): endpoint down, a few seeded requests on the leader, a user snapshot on a follower that has applied them while they are still inside its batching window, immediate restart of that follower, leadership moved to it, endpoint back, more requests; and 2 (quick) / 6 (thorough) directed histories of a second motif (batch size 1-5, batch delay 10-60 ms, no automatic snapshots): a running follower (for a third of the histories a restarted process that has replayed its log) is cut off, 6-13 seeded requests are committed by the majority while its leader takes two user snapshots with 1-2 trailing logs (its log is trimmed), the requests are delivered (for a quarter of the histories the endpoint is down instead, from the cut-off until the follower leads), the follower is reconnected and is brought up to date by a snapshot sent by the leader (observed: its raft last_snapshot_index moves although it took no snapshot), 2-5 more requests are applied by it as follower (endpoint down for two thirds of the histories), leadership is moved to it, endpoint back, 3-6 requests under its leadership. non-trivial (random histories) = at least two leaders seen, at least one restart and one snapshot (user or automatic) executed, endpoint retries observed, and at least 5 multi-statement non-transaction entries with more than one non-empty commit; non-trivial (directed) = the scripted situation was reached (first motif: a non-leader took the snapshot and its restarted instance later delivered as leader; second motif: the snapshot install on the running follower was observed, entries were applied after it and the follower led the last request); distinct by case number")
 	c.Assume("ground truth for the row changes of an entry are SQLite's own preupdate/commit hooks on a shadow database fed the same requests in log order; the shadow is validated per request (statement errors, rows affected) and at the end (schema and content equal to a strong read of the cluster), otherwise the history is inconclusive")
-	c.Assume("delivered = payloads the endpoint answered with 200; bodies answered 5xx / dropped / held are not deliveries")
+	c.Assume("delivered = payloads the endpoint answered with 200; bodies answered 5xx, refused with a 3xx/4xx status, dropped or held are not deliveries")
 	c.Assume("never-delivered is decided after the endpoint has been healthy, the leader's FIFO has had nothing to send and no payload has arrived for 10 s (2.5 s when nothing required is missing); no quiet state within 150 s, or dropped_cdc_events > 0, is inconclusive")
 	c.Assume("phantom events of failed statements (C27 phantom-events:failed-statement) are extra events, not missing ones; they are counted, attributed by exact content to the failed statement of the same entry, and not judged here")
 	n := nRandom(c) + nDirected(c)
@@ -215,6 +215,65 @@ func skippedAfterRegain(h *histOut, idx uint64, ev pev) string {
 		}
 	}
 	return ""
+}
+
+// advancedInTenure recognises the most direct way of losing a batch: a service
+// instance posted the batch holding (idx, ev), the endpoint did not take it
+// (any answer other than 200), and the same instance, with no leader-change
+// signal to it in between (so it was never told to stop retrying), went on to
+// post a new batch of higher indices. Returns the class of the answer that
+// preceded the advance ("4xx", "5xx", "close", "hang"...) and a description, or
+// "", "". Only consulted for a change that was never delivered at all.
+func advancedInTenure(h *histOut, idx uint64, ev pev) (string, string) {
+	recs := append([]receipt(nil), h.Receipts...)
+	sort.Slice(recs, func(a, b int) bool { return recs[a].Seq < recs[b].Seq })
+	for i, r1 := range recs {
+		if r1.Mode == "ok" || r1.Aborted || r1.Bad != "" {
+			continue
+		}
+		holds := false
+		for _, m := range r1.Msgs {
+			if m.Index != idx {
+				continue
+			}
+			for _, d := range m.Events {
+				if d.K == ev.K || (d.Err != "" && d.ID == ev.ID) {
+					holds = true
+				}
+			}
+		}
+		if !holds {
+			continue
+		}
+		// the next payload of this instance that is not the same batch again
+		for _, r2 := range recs[i+1:] {
+			if r2.Node != r1.Node || r2.Inst != r1.Inst || r2.Aborted || r2.Bad != "" {
+				continue
+			}
+			var mn uint64
+			for _, m := range r2.Msgs {
+				if m.Index != 0 && (mn == 0 || m.Index < mn) {
+					mn = m.Index
+				}
+			}
+			if mn == 0 {
+				continue
+			}
+			if mn <= idx {
+				break // still (or again) working on the batch: judged from that payload on
+			}
+			for _, le := range h.LeaderEvs {
+				if le.Node == r1.Node && le.Inst == r1.Inst && le.Seq > r1.Seq && le.Seq < r2.Seq {
+					mn = 0 // a leader change was signalled in between: other ways of losing it
+				}
+			}
+			if mn != 0 {
+				return answerClass(r1.Mode), fmt.Sprintf("the service of %s (instance %d) posted the batch and was answered %s (payload #%d), and with no leader change signalled to it went on to post index %d (payload #%d): it treated the batch as sent, its high-water mark made every node prune it", r1.Node, r1.Inst, r1.Mode, r1.Seq, mn, r2.Seq)
+			}
+			break
+		}
+	}
+	return "", ""
 }
 
 // lostOnSnapshottedFollower recognises one precise way of losing a change: a
@@ -428,7 +487,9 @@ func judge(c *vf.Ctx, i int, h *histOut) {
 				case elsewhere:
 					viol("wrong-index:first-commit-of-entry", fmt.Sprintf("delivered only under index %d: %s", other, describe(e, gi, ev)), e)
 				default:
-					if why := skippedAfterRegain(h, e.Index, ev); why != "" {
+					if cls, why := advancedInTenure(h, e.Index, ev); why != "" {
+						viol("missing:sender-advanced-past-batch-answered-"+cls, "committed row change never delivered: "+why+": "+describe(e, gi, ev), e)
+					} else if why := skippedAfterRegain(h, e.Index, ev); why != "" {
 						viol(keySkipped, "committed row change never delivered: "+why+": "+describe(e, gi, ev), e)
 					} else if why := lostOnSnapshottedFollower(h, e.Index); why != "" {
 						viol(keyFollower, "committed row change never delivered: "+why+": "+describe(e, gi, ev), map[string]any{"entry": e, "marks": h.Marks})
